@@ -91,7 +91,9 @@ HRun == /\ pc = "h_run"
 
 Failing(s) == s.out.kind # "ok"
 \* "ctxwrap": a coded error whose cause wraps a context error keeps its own code (error.go wrapIfContextError)
-ErrOf(s) == IF s.out.kind = "plain" THEN [code |-> 2, msg |-> s.out.msg, ndet |-> 0, meta |-> <<>>]
+\* "badsend": the codec refuses to marshal the next response message: internal, before any byte of it is written
+ErrOf(s) == IF s.out.kind = "badsend" THEN [code |-> 13, msg |-> "library", ndet |-> 0, meta |-> <<>>]
+            ELSE IF s.out.kind = "plain" THEN [code |-> 2, msg |-> s.out.msg, ndet |-> 0, meta |-> <<>>]
             ELSE [code |-> s.out.code, msg |-> IF s.out.kind = "ctxwrap" THEN "ctx:" \o s.out.msg ELSE s.out.msg,
                   ndet |-> s.out.ndet, meta |-> s.out.meta]
 NSent(s) == IF ~Failing(s) THEN Len(s.resp)
